@@ -188,13 +188,14 @@ func checkCase(c micCase) evid.Outcome {
 	{
 		g := c.F
 		g.MIC = want
-		var q lorawan.PHYPayload
-		if err := q.UnmarshalBinary(g.Encode()); err != nil {
+		// half of the cases receive in a loop: one variable, the decoded value kept by value, the variable decodes the next frame
+		loop := c.F.FCnt&1 == 1
+		q, err := gen.Receive(g.Encode(), loop)
+		if err != nil {
 			return evid.Fail("UnmarshalBinary(%x): %v", g.Encode(), err)
 		}
 		q.MACPayload.(*lorawan.MACPayload).FHDR.FCnt = c.F.FCnt
 		var ok bool
-		var err error
 		if up {
 			ok, err = q.ValidateUplinkDataMIC(ver(c.V11), c.ConfFCnt, c.TxDR, c.TxCh, gen.LibKey(toKey(c.FNwk)), gen.LibKey(toKey(c.SNwk)))
 		} else {
